@@ -49,6 +49,8 @@ type Run struct {
 	notes             []string
 	Exhaustive        bool
 	deadline          time.Time
+	// OnViolation, when set (worker processes), is called for every recorded violation.
+	OnViolation func(sig, what string, c interface{})
 }
 
 func envInt(k string, d int) int {
@@ -153,6 +155,18 @@ func (r *Run) Note(s string)   { r.mu.Lock(); r.notes = append(r.notes, s); r.mu
 // alphabets are ordered simplest-first) case per signature is kept.
 func (r *Run) Violation(sig, what string, c interface{}) {
 	sig = sanitize(sig)
+	if r.OnViolation != nil {
+		r.mu.Lock()
+		_, seen := r.viol[sig]
+		if !seen {
+			r.viol[sig] = &violation{Sig: sig, What: what, Case: c, Count: 1}
+		}
+		r.mu.Unlock()
+		if !seen {
+			r.OnViolation(sig, what, c)
+		}
+		return
+	}
 	r.mu.Lock()
 	defer r.mu.Unlock()
 	if _, ok := r.known[sig]; ok {
@@ -315,3 +329,58 @@ func (r *Run) DistinctKeys(set string) []string {
 
 // Yield lets other goroutines run briefly (used only to wait for an asynchronous dispatcher to drain).
 func Yield() { time.Sleep(200 * time.Microsecond) }
+
+// Snapshot is the mergeable part of a run (counters, distinct sets, samples, notes).
+type Snapshot struct {
+	Counters   map[string]int64    `json:"c"`
+	Distinct   map[string][]string `json:"d"`
+	Samples    []interface{}       `json:"s"`
+	Notes      []string            `json:"n"`
+	Exhaustive bool                `json:"e"`
+}
+
+func (r *Run) Snapshot() Snapshot {
+	r.mu.Lock()
+	defer r.mu.Unlock()
+	s := Snapshot{Counters: map[string]int64{}, Distinct: map[string][]string{}, Samples: r.samples, Notes: r.notes, Exhaustive: r.Exhaustive}
+	for k, v := range r.counters {
+		s.Counters[k] = v
+	}
+	for k, m := range r.distinct {
+		for x := range m {
+			s.Distinct[k] = append(s.Distinct[k], x)
+		}
+	}
+	return s
+}
+
+func (r *Run) Merge(s Snapshot) {
+	r.mu.Lock()
+	defer r.mu.Unlock()
+	for k, v := range s.Counters {
+		r.counters[k] += v
+	}
+	for k, l := range s.Distinct {
+		m := r.distinct[k]
+		if m == nil {
+			m = map[string]struct{}{}
+			r.distinct[k] = m
+		}
+		for _, x := range l {
+			m[x] = struct{}{}
+		}
+	}
+	for _, x := range s.Samples {
+		if len(r.samples) < r.sampleCap {
+			r.samples = append(r.samples, x)
+		}
+	}
+	for _, x := range s.Notes {
+		if len(r.notes) < 20 {
+			r.notes = append(r.notes, x)
+		}
+	}
+	if !s.Exhaustive {
+		r.Exhaustive = false
+	}
+}
